@@ -8,7 +8,7 @@ from .registry import clause_text, clause_active
 SPEC_FUNCS = {"old", "implies", "forall", "exists", "isint", "isstr", "isnone", "isbool", "isref", "ispath", "isfloat",
               "isbytes", "elems", "at", "length", "result", "iff", "count_where", "isclass", "keys", "lookup", "haskey",
               "distinct", "isfile", "isdir", "exists_path", "issymlink", "fs_text", "fs_target", "effect", "no_effect",
-              "effect_count", "fresh", "unchanged", "ite", "seq_eq", "raised", "isfresh", "forall_keys", "forall_val", "isregular", "effect_before", "effect_result", "at_effect", "fs_read", "parses_int", "writes_count", "effect_arg", "bm_self", "p_joinp"}
+              "effect_count", "fresh", "unchanged", "ite", "seq_eq", "raised", "isfresh", "forall_keys", "forall_val", "isregular", "isabsent", "effect_before", "effect_result", "at_effect", "fs_read", "parses_int", "writes_count", "effect_arg", "bm_self", "p_joinp"}
 
 
 class CallMixin:
@@ -198,11 +198,13 @@ class CallMixin:
             self.apply_modifies(s2, old, mods, binds)
             b2 = dict(binds)
             res = None
+            if kind == "raise" and isinstance(oc, dict) and oc.get("value"):
+                b2["excval"] = self.spec_v(s2, old, oc["value"], b2)
             if kind == "normal":
                 if c.get("fresh"):
                     res = self.alloc(s2, c["fresh"], c.get("returns", c["fresh"]))
                     if base_type(res.ty) in ("list", "set", "tuple") and c.get("empty"):
-                        s2.heap["$elems"] = z3.Store(s2.field("$elems"), Val.r(res.t), z3.Empty(SeqV))
+                        s2.heap["$elems"] = z3.Store(s2.field("$elems"), vr(res.t), z3.Empty(SeqV))
                 else:
                     res = V(fresh_val("ret"), c.get("returns"))
                     rt = base_type(c.get("returns"))
@@ -232,9 +234,7 @@ class CallMixin:
                     continue
                 out.append(Res(s2, res))
             else:
-                excval = None
-                if isinstance(oc, dict) and oc.get("value"):
-                    excval = self.spec_v(s2, old, oc["value"], b2)
+                excval = b2.get("excval")
                 out.append(Res(s2, None, "raise", exc, excval))
         return out
 
@@ -261,10 +261,10 @@ class CallMixin:
         elif ty in ("list", "set", "tuple", "dict") or ty in self.reg.classes:
             st.assume(Val.is_RefV(t))
             if ty in ("list", "set", "tuple", "dict"):
-                st.assume(z3.Select(st.field("$class"), Val.r(t)) == self.reg.classtag(ty))
+                st.assume(z3.Select(st.field("$class"), vr(t)) == self.reg.classtag(ty))
             elif ty not in ("Mutex",):
                 subs = self.reg.subclasses(ty)
-                st.assume(z3.Or(*[z3.Select(st.field("$class"), Val.r(t)) == self.reg.classtag(c) for c in subs]))
+                st.assume(z3.Or(*[z3.Select(st.field("$class"), vr(t)) == self.reg.classtag(c) for c in subs]))
         elif ty and ty.startswith("opt:"):
             inner = V(t, ty[4:])
             s2 = State(); s2.heap = st.heap
@@ -290,10 +290,10 @@ class CallMixin:
                 flds = ["$elems"] if m.startswith("elems(") else ["$dkeys", "$dmap", "$dhas"]
                 for f in flds:
                     srt = field_sort(f).range()
-                    st.write(f, Val.r(obj.t), z3.Const(fresh_name("hv"), srt))
+                    st.write(f, vr(obj.t), z3.Const(fresh_name("hv"), srt))
             elif m.startswith("fs(") or m.startswith("fs_tree("):
                 from .fsmodel import p_under
-                pv = Val.p(self.spec_v(old, old, m[m.index("(") + 1:-1], binds).t)
+                pv = vp(self.spec_v(old, old, m[m.index("(") + 1:-1], binds).t)
                 ok_, ot_ = st.field("$fs_kind"), st.field("$fs_text")
                 if m.startswith("fs("):
                     self._pending_fs_hooks = getattr(self, "_pending_fs_hooks", []) + [(pv, ok_, ot_)]
@@ -314,7 +314,7 @@ class CallMixin:
             else:
                 objexpr, fld = m.rsplit(".", 1)
                 obj = self.spec_v(old, old, objexpr, binds)
-                st.write(fld, Val.r(obj.t), fresh_val("hv"))
+                st.write(fld, vr(obj.t), fresh_val("hv"))
 
     # ------------------------------------------------------------------ interference (await)
     def interfere(self, st, lineno):
